@@ -14,16 +14,19 @@ import datagen
 PROP_FILE = 'theories/Properties/C05.v'
 MODEL_FILES = ['theories/Spec/WeightSpec.v', 'theories/Model/Ipw.v', 'theories/Model/IpwRun.v']
 GEN_GROUPS = ['weights']
-RULE = ('IPTW: frames with continuous + categorical predictors (separated / near-separated draws rejected), EVERY '
-        'stabilized x standardize x numerator-model x bound (none / symmetric float that bites / asymmetric pair that bites '
-        '/ unreached) combination, optional frequency-weight column, all index kinds; IPTW.missing_model stabilized x bound; '
-        'StochasticIPTW: marginal and conditional plans (exclusive+exhaustive, non-exhaustive, overlapping), optional weights; '
-        'IPMW: monotone patterns over 1-3 variables (distinct, uniform-all, uniform-first-pair, uniform-last-pair, str / list '
-        'argument, fewer models than variables), stabilized or not, saturated models for the telescoping identity, index kinds '
-        'range/shift/shuffle/float/str/dup; IPCW: long data, shuffled input, equal times across subjects, duplicated '
-        '(id,time) keys, events before the last row, integer and half-integer time grids, all index kinds, a second permutation '
-        'of every input.  Per-row weights vs the Coq-evaluated model AND specification fed the code\'s own fitted probabilities '
-        '(tol 1e-9); non-trivial = distinct (class, options, data signature)')
+RULE = ('IPTW (n 40-80): frames with continuous + categorical predictors (separated / near-separated draws rejected: every '
+        'needed logistic fit must converge with predictions in [1e-4, 1-1e-4]), EVERY stabilized x standardize x numerator-model '
+        '(constant / covariate) x bound (none / symmetric float that bites / asymmetric pair that bites / unreached) combination '
+        '= 36 per frame, optional frequency-weight column, all index kinds; IPTW.missing_model stabilized x bound; StochasticIPTW '
+        '(n 24-36): marginal and conditional plans (exclusive+exhaustive with 2 and 3 conditions, non-exhaustive, overlapping), '
+        'p incl. 0 and 1, optional weights; IPMW (n 40-90): monotone patterns over 1-3 variables (distinct, uniform-all, '
+        'uniform-first-pair, uniform-last-pair, str / list argument, fewer models than variables), stabilized or not, '
+        'stratum-saturated models for the telescoping identity, index kinds range/shift/shuffle/float/str/dup, plus the two '
+        'uniformity predicates called directly; IPCW (14-30 subjects, <= 5 visits): long data, shuffled / reversed / sorted input, '
+        'equal times across subjects, duplicated (id,time) keys, events before the last row, integer and half-integer time grids, '
+        'all index kinds, a second permutation of every input.  Every row of every case is compared (tol 1e-9, inside Coq) with the '
+        'model AND the specification evaluated at the code\'s own fitted probabilities; non-trivial = distinct (class, options, '
+        'data signature); quick = 6+4+10+64+24 frames, thorough = 40+24+80+600+200')
 TRUSTED = ['oracle: statsmodels GLM(Binomial) returns the logistic MLE -- assumed only through its predictions; validated on '
            'every fit by the score equations sum_i w_i x_i (y_i - p_i) = 0 (|.| <= 1e-6 x scale) on the patsy design',
            'oracle: DataFrame.sort_values([id, time]) returns a sorted permutation of its input (validated on every IPCW case)',
@@ -154,12 +157,20 @@ def par_eval(ctx, jobs, workers=4):
         return [f.result() for f in futs]
 
 
-def diag_eval(ctx, expr, preamble=''):
+def diag_eval(ctx, expr, preamble='', nbool=False):
     """print the expected values of one row (only for the case that gets reported)"""
     res, errs = coq_eval(ctx, 'c05diag', IMPORTS + ['ZepidGen.Gen_weights_Q'], [expr], shard=1, preamble=preamble)
     if errs or res[0] is None:
         return 'n/a'
-    return [('NaN' if v[1] == 0 else repr(float(Fraction(v[0], v[1])))) if len(v) == 2 and v[1] >= 0 and not set(v) <= {0, 1} else v for v in res[0]]
+    out = []
+    for v in res[0]:
+        if len(v) == 2 and v[1] > 0 and not (nbool and v is res[0][-1]):
+            out.append(repr(float(Fraction(v[0], v[1]))))
+        elif v == [0, 0] and not (nbool and v is res[0][-1]):
+            out.append('NaN')
+        else:
+            out.append(v)
+    return out
 
 
 # =============================================================================================== IPTW
@@ -912,7 +923,7 @@ def ipcw_part(ctx, fails, cases):
                 fails.append((n, key, '%s: sorted row %d (id=%d, t=%r, event=%d): __uncensored__=%d __cnumer__=%r __cdenom__=%r Weight=%r; %s'
                               % (lab, j, o['id'][j], o['t'][j], o['d'][j], o['u'][j], o['cnum'][j], o['cden'][j], o['w'][j], txt), cs,
                               lambda e='ipcw_val %s %s %d' % (s, pm, j): ' [expected cnumer, cdenom, Weight, documented Weight, (model, documented) indicator = %s]'
-                              % diag_eval(ctx, e)))
+                              % diag_eval(ctx, e, nbool=True)))
                 break
 
 
